@@ -391,6 +391,10 @@ fn classify(rule: &str, input: &str, what: &str) -> String {
 }
 
 pub fn replay(case: &Value) -> Vec<Violation> {
+    if case["kind"] == "conformance" {
+        quiet_panics();
+        return crate::c16conf::replay(case);
+    }
     // replay runs the input in an isolated worker too (it may hang)
     let input = case["input"].as_str().unwrap_or("").to_string();
     let exe = std::env::current_exe().unwrap();
@@ -478,10 +482,28 @@ pub fn run(ctx: &Ctx) -> Report {
         }
         st.sample(json!({"family":fam,"input":input_of(fam, total/2, arg)}));
     }
-    let nontriv = st.counters.get("nontrivial").copied().unwrap_or(0);
+    // conformance family (in-process: these inputs are well-formed)
+    quiet_panics();
+    let (stc, conf_complete) = crate::c16conf::run_family(ctx, thorough);
+    complete &= conf_complete;
+    let conf_cases = stc.evaluations;
+    let conf_nontrivial = stc.nontrivial.len() as u64;
+    total_completed += conf_cases;
+    for v in stc.violations.clone() {
+        st.violation(v);
+    }
+    for s in stc.samples.iter().take(2) {
+        st.samples.push(s.clone());
+    }
+    st.errors.extend(stc.errors.clone());
+    bounds.push(json!({"family":"conformance","cases":conf_cases,"complete":conf_complete}));
+    if conf_cases == 0 {
+        st.errors.push("vacuous: no conformance case ran".into());
+    }
+    let nontriv = st.counters.get("nontrivial").copied().unwrap_or(0) + conf_nontrivial;
     rep.set("exhaustive", complete);
     rep.set("bounds", Value::Array(bounds));
-    rep.set("rule", "every string of <= L symbols over a 31-symbol alphabet of grammar pieces, every sequence of <= M grammar tokens (space-joined and concatenated), designated long / deeply nested inputs; each through parse_query, parse_query_lenient and QueryParser::{parse_query, parse_query_lenient} (disjunction and conjunction mode) in isolated workers. Non-trivial: accepted by the strict grammar and containing a non-alphanumeric symbol; inputs are distinct by construction (distinct index -> distinct symbol sequence)");
+    rep.set("rule", "every string of <= L symbols over a 31-symbol alphabet of grammar pieces, every sequence of <= M grammar tokens (space-joined and concatenated), designated long / deeply nested inputs; each through parse_query, parse_query_lenient and QueryParser::{parse_query, parse_query_lenient} (disjunction and conjunction mode) in isolated workers; conformance: ~35 leaf forms and all depth-1 (thorough: depth-2) compounds over 6 / 4 representative leaves (juxtaposition, AND / OR with precedence, + / - markers, NOT, boosts, field groups), printed in 4 styles (extra whitespace, redundant parentheses) x 2 default-operator modes, parsed strictly and compared through the matching documents of a 12-document corpus whose fields differ. Non-trivial: accepted by the strict grammar and containing a non-alphanumeric symbol; inputs are distinct by construction (distinct index -> distinct symbol sequence)");
     rep.merge_stats(&st);
     rep.set("evaluations", total_completed);
     rep.set("distinct_nontrivial", nontriv);
